@@ -271,6 +271,19 @@ impl GrammarBuilder {
                 nt_idx = nonterminal.idx;
             } else {
                 nt_idx = self.get_nonterm_idx();
+                // Register the rule before its productions are desugared. A
+                // repetition inside the rule whose helper has the name of the
+                // rule (e.g. `A1: A+;`) would otherwise create a second
+                // non-terminal of that name with another index.
+                self.nonterminals.insert(
+                    rule.name.as_ref().into(),
+                    NonTerminal {
+                        idx: nt_idx,
+                        name: rule.name.as_ref().into(),
+                        annotation: rule.annotation.as_ref().map(|a| a.as_ref().into()),
+                        ..Default::default()
+                    },
+                );
             }
 
             // Gather productions, create indexes. Transform RHS to mark
